@@ -414,7 +414,24 @@ pub fn gen_request(g: &mut G, max_body: usize) -> ReqPlan {
         1 => Auth::Bearer((*g.pick(&["tok", "abc.def.ghi", "t o k", "tökén", ""])).to_string()),
         _ => Auth::None,
     };
-    ReqPlan { method, path, url_query, params, params_batch: g.chance(1, 2), headers, auth, body: gen_body(g, max_body), api: g.below(4) as u8 }
+    let mut plan = ReqPlan { method, path, url_query, params, params_batch: g.chance(1, 2), headers, auth, body: gen_body(g, max_body), api: g.below(4) as u8 };
+    // (no draw) a caller's Content-Length that happens to state the right number, spelled in a way that is not a
+    // Content-Length (`+11`, ` 11`, `011`): the field on the wire is the library's own, whatever the caller wrote
+    let known_len = match &plan.body {
+        BodySpec::None => Some(0usize),
+        BodySpec::Text(t) => Some(t.len()),
+        BodySpec::Bytes(b) => Some(b.len()),
+        _ => None,
+    };
+    if let Some(n) = known_len {
+        for (name, v, _) in plan.headers.iter_mut() {
+            if name.eq_ignore_ascii_case("content-length") && v == b"5" {
+                *v = [format!("+{}", n), format!("{}", n), format!("0{}", n), format!("+{}", n)][n % 4].clone().into_bytes();
+                g.probe("caller-content-length-with-the-right-number");
+            }
+        }
+    }
+    plan
 }
 
 impl ReqPlan {
